@@ -46,11 +46,45 @@ private def f3 (name : String) : Option (St → Nat → Nat → Nat → St) :=
   | "as_sub" => some mpz_sub
   | _ => none
 
+private def f2 (name : String) : Option (St → Nat → Nat → St) :=
+  match name with
+  | "as_set" => some mpz_set
+  | "as_neg" => some mpz_neg
+  | "as_abs" => some mpz_abs
+  | "as_com" => some mpz_com
+  | _ => none
+
+/-- `f (w, u, k)` with the bound on k the harness imposes (0 = any limb) -/
+private def fui (name : String) : Option ((St → Nat → Nat → Nat → St) × Nat) :=
+  match name with
+  | "as_add_ui" => some (mpz_add_ui, 0)
+  | "as_sub_ui" => some (mpz_sub_ui, 0)
+  | "as_mul_2exp" => some (mpz_mul_2exp, 2 ^ 20)
+  | "as_tdiv_q_2exp" => some (mpz_tdiv_q_2exp, 0)
+  | _ => none
+
 def handle : Handler
   | name, [.num m, .num wa, .num wv, .num ua, .num uv, .num va, .num vv] => do
       let f ← f3 name
       let w ← mk? wa wv; let u ← mk? ua uv; let v ← mk? va vv
       run3 f m w u v
+  | name, [.num m, .num wa, .num wv, .num ua, .num uv] => do
+      let f ← f2 name
+      let w ← mk? wa wv; let u ← mk? ua uv
+      run2 f m w u
+  | name, [.num m, .num wa, .num wv, .num ua, .num uv, .num k] => do
+      let (f, lim) ← fui name
+      if !(isUI k) || (lim != 0 && k.toNat > lim) then none else
+      let w ← mk? wa wv; let u ← mk? ua uv
+      run2 (fun s a b => f s a b k.toNat) m w u
+  | "as_set_ui", [.num wa, .num wv, .num k] => do
+      if !(isUI k) then none else
+      let w ← mk? wa wv
+      some (outW (mpz_set_ui (heap w w w) 0 k.toNat) 0)
+  | "as_set_si", [.num wa, .num wv, .num k] => do
+      if !(isSI k) then none else
+      let w ← mk? wa wv
+      some (outW (mpz_set_si (heap w w w) 0 k) 0)
   | _, _ => none
 
 end Mpir.Ops.AllocSafe
